@@ -44,7 +44,8 @@ fn calls(rng: &mut Rng, n: usize, seq0: u32, streams: bool) -> Vec<CallSpec> {
         })
         .map(|mut c| {
             if c.kind == Kind::Sub {
-                c.more = true;
+                // (now and then without the flag: the service answers with a stream all the same)
+                c.more = c.seq % 5 != 3;
                 c.oneway = false;
             }
             c
